@@ -340,6 +340,11 @@ def capture_programs():
             ('method-global-class-attribute', '%(n)s = 10\ndef make_counter():\n    %(n)s = 0\n    class Counter:\n        %(n)s = "unrelated class attribute"\n        def step(self):\n            global %(n)s\n            %(n)s += 1\n            return %(n)s\n    return Counter().step(), Counter().step(), Counter.%(n)s, %(n)s\nprint(make_counter(), %(n)s)\n'),
             ('method-free-read-class-attribute', 'def make_reader(%(n)s):\n    class Reader:\n        %(n)s = "unrelated class attribute"\n        def read(self):\n            return %(n)s, %(n)s, self.%(n)s\n    return Reader().read(), %(n)s\nprint(make_reader("parameter"))\n'),
             ('nested-class-reads-outer-class-name', 'def make_classes(%(n)s):\n    class Outer:\n        %(n)s = "outer class attribute"\n        class Inner:\n            seen = [%(n)s, %(n)s]\n            def read(self):\n                return %(n)s\n    return Outer.Inner.seen, Outer.Inner().read(), Outer.%(n)s, %(n)s\nprint(make_classes("parameter"))\n'),
+            ('method-reads-local-shadowed-by-class-attribute', 'def make_reader(seed_value):\n    %(n)s = seed_value * 2\n    class Reader:\n        %(n)s = "unrelated class attribute"\n        def read(self):\n            return %(n)s, %(n)s, self.%(n)s\n        describe = lambda self: (%(n)s, self.%(n)s)\n    return Reader().read(), Reader().describe(), %(n)s, %(n)s\nprint(make_reader(21))\n'),
+            ('method-reads-local-shadowed-by-class-def', 'def make_reader(seed_value):\n    %(n)s = seed_value * 2\n    class Reader:\n        def %(n)s(self):\n            return "method"\n        def read(self):\n            return %(n)s, %(n)s, self.%(n)s()\n    return Reader().read(), %(n)s, %(n)s\nprint(make_reader(21))\n'),
+            ('property-setter-named-like-enclosing-local', 'def make_counter(%(n)s):\n    start_value = %(n)s + %(n)s + %(n)s\n    class Counter:\n        def __init__(self):\n            self._stored = start_value\n        @property\n        def %(n)s(self):\n            return self._stored\n        @%(n)s.setter\n        def %(n)s(self, new_value):\n            self._stored = new_value\n    return Counter\ndef use_counter():\n    counter_object = make_counter(2)()\n    counter_object.%(n)s = counter_object.%(n)s + 1\n    return counter_object.%(n)s, sorted(name for name in type(counter_object).__dict__ if not name.startswith("_"))\nprint(use_counter())\n'),
+            ('class-def-read-again-in-class-body', 'def make_table(%(n)s):\n    scaled_value = %(n)s * %(n)s * %(n)s\n    class Table:\n        def %(n)s(self):\n            return scaled_value\n        alias_value = %(n)s\n        class %(n)s_holder:\n            pass\n        inner_alias = %(n)s_holder\n    return Table().%(n)s(), Table.alias_value is Table.%(n)s, Table.inner_alias.__name__\nprint(make_table(2))\n'),
+            ('class-import-read-again-in-class-body', 'def make_tools(collections):\n    first_seen = [collections, collections, collections]\n    class Tools:\n        import collections\n        counted = collections.Counter("aab").most_common(1)\n    return Tools.counted, first_seen, Tools.collections.__name__\nprint(make_tools("outer value"))\n'),
             ('class-free-read', 'def make_class(%(n)s):\n    class Holder:\n        seen = [%(n)s, %(n)s, %(n)s]\n        def method(self):\n            return %(n)s\n    return Holder.seen, Holder().method(), %(n)s\nprint(make_class("parameter"))\n'),
             ('class-local-same-spelling', 'def make_class(%(n)s):\n    class Holder:\n        %(n)s = "class level"\n        after = %(n)s\n        def method(self):\n            return %(n)s\n    return Holder.after, Holder().method(), Holder.%(n)s\nprint(make_class("parameter"))\n'),
             ('class-bases-in-enclosing-scope', 'def make_class(%(n)s):\n    class Holder(%(n)s, metaclass=type(%(n)s)):\n        %(n)s = 1\n    return Holder.__mro__[1].__name__, Holder.%(n)s\nprint(make_class(dict))\n'),
